@@ -832,3 +832,37 @@ def expected_fold(fold):
         return (True, f(a, b))
     except Exception as e:
         return (False, type(e).__name__)
+
+
+# ---------------------------------------------------------------------------------------------------------------
+# compensation switch "unknown-result-tag" (DESIGN 3.7), used by C08
+
+def install_unknown_result_switch():
+    """assign_stmt_state tags the ANYTHING state it creates for `y = -x` / an undecided binary operation with the symbol id
+    of the OPERAND; when such a state is stored into a field of `this` / a parameter inside a callee, summary application
+    (resolve_anything_in_summary_generation) replaces it by the operand's own value (y = -x; o = KC(y) gives o.f1 = {x's
+    value}).  proposed/C08-unknown-result-tagged-with-operand.diff tags it with the TARGET symbol instead; this switch does the
+    same inside a forked child so that a failing definition can be attributed to exactly this mechanism."""
+    import lian.core.stmt_states as ss
+    orig_assign = ss.StmtStates.assign_stmt_state
+    orig_create = ss.StmtStates.create_state_and_add_space
+
+    def assign_stmt_state(self, stmt_id, stmt, status, in_states):
+        prev = getattr(self, "_verif_assign_target", None)
+        self._verif_assign_target = status.defined_symbol
+        try:
+            return orig_assign(self, stmt_id, stmt, status, in_states)
+        finally:
+            self._verif_assign_target = prev
+
+    def create_state_and_add_space(self, status, stmt_id, *a, **k):
+        tgt = getattr(self, "_verif_assign_target", None)
+        if tgt is not None and k.get("state_type") == ANYTHING and "source_symbol_id" in k:
+            sym = self.frame.symbol_state_space[tgt]
+            if sym is not None and hasattr(sym, "symbol_id") and hasattr(sym, "name"):
+                k["source_symbol_id"] = sym.symbol_id
+        return orig_create(self, status, stmt_id, *a, **k)
+
+    ss.StmtStates.assign_stmt_state = assign_stmt_state
+    ss.StmtStates.create_state_and_add_space = create_state_and_add_space
+    return True
